@@ -57,8 +57,8 @@ Verdict(e) == CASE e.ev = "small" -> SmallVerdict(e)
 
 (* outside the statement: exact duplicates in a whitelist (which index is "that barcode's"?), a whitelist  *)
 (* spread over two files of one alias, a query whose length is not the whitelist length or that contains   *)
-(* a letter outside ACGTN (the placeholder row XXXXXX of the merged index lists)                            *)
-Outside(e) == CASE e.ev = "small" -> e.nfiles > 1 \/ HasDup(e.wl)
+(* a letter outside ACGTN, a file name with '.bc' in the middle (registered under another alias), (the placeholder row XXXXXX of the merged index lists)                            *)
+Outside(e) == CASE e.ev = "small" -> e.nfiles > 1 \/ HasDup(e.wl) \/ e.alias_kind # "plain"
                 [] e.ev = "q"     -> Dup \/ Comparable(W.w, e.q) = {} \/ (\E i \in DOMAIN e.q : e.q[i] \notin 1 .. 5)
                 [] OTHER -> FALSE
 
